@@ -96,7 +96,7 @@ def solver_level(ck, tier, seed, only=None):
 
 
 def run(tier, seed, only=None):
-    runner.build("san", targets=["adjdrv"])
+    runner.build("san", targets=["adjdrv", "gama-local"])
     ck = Check("C02", tier, seed,
                "same input solved with envelope/cholesky/gso/svd; solver level: random adjustment problems as in C01 "
                "through Adj (defect, x, v, sum of squares, full q_xx and q_bb compared pairwise); network level: "
